@@ -23,8 +23,30 @@ def dataOf : List ReadEv → Bytes
 structure Framing {σ ι : Type} (D : Decoder σ ι) where
   Valid : Bytes → Prop
   item : Bytes → ι
+  /-- a whole valid frame at the head of the buffer is delivered; what follows is untouched -/
   complete : ∀ s f rest, Valid f → ∃ s', D.decode s (f ++ rest) = (.ok (some (item f)), s', rest)
-  waits : ∀ s f p, Valid f → p <+: f → p ≠ f → ∃ s', D.decode s p = (.ok none, s', p)
+  /-- on a strict prefix `p` of a valid frame `p ++ q` the decoder answers "need more"; it may
+      discard bytes it holds (resynchronisation), but what it keeps, followed by the rest `q`
+      of the frame, is again a valid frame with the same content -/
+  waits : ∀ s p q, Valid (p ++ q) → q ≠ [] →
+    ∃ s' p', D.decode s p = (.ok none, s', p') ∧ Valid (p' ++ q) ∧ item (p' ++ q) = item (p ++ q)
+
+/-- the common case: the decoder leaves a strict prefix of a frame exactly as it is -/
+def Framing.ofStrict {σ ι : Type} {D : Decoder σ ι} (Valid : Bytes → Prop) (item : Bytes → ι)
+    (complete : ∀ s f rest, Valid f → ∃ s', D.decode s (f ++ rest) = (.ok (some (item f)), s', rest))
+    (waits : ∀ s f p, Valid f → p <+: f → p ≠ f → ∃ s', D.decode s p = (.ok none, s', p)) : Framing D where
+  Valid := Valid
+  item := item
+  complete := complete
+  waits := by
+    intro s p q hv hq
+    have hne : p ≠ p ++ q := by
+      intro e
+      have := congrArg List.length e
+      simp at this
+      exact hq this
+    obtain ⟨s', h⟩ := waits s (p ++ q) p hv ⟨q, rfl⟩ hne
+    exact ⟨s', p, h, hv, rfl⟩
 
 /-- the reader is healthy, and if it is in the "reading" state its buffer is a strict
     prefix of the frame `f` it is waiting for -/
@@ -50,20 +72,22 @@ variable {σ ι : Type} {D : Decoder σ ι}
 
 /-- one `poll_next` on a healthy reader whose input starts with the valid frame `f`:
     either `f` is delivered (and nothing of the following bytes is touched), or the poll
-    ends in `Pending` with the reader still healthy and still waiting for `f`. -/
-theorem pollNext_frame (F : Framing D) (f tail : Bytes) (hf : F.Valid f) :
-    ∀ (evs : List ReadEv) (s : σ) (r : ReadFrame),
+    ends in `Pending` with the reader still healthy and still waiting for a frame with the
+    same content (the same frame, unless the decoder discarded noise in front of it). -/
+theorem pollNext_frame (F : Framing D) (tail : Bytes) :
+    ∀ (evs : List ReadEv) (s : σ) (r : ReadFrame) (f : Bytes), F.Valid f →
       (∀ e ∈ evs, e.isFeed = true) → FrameInv r f → r.buffer ++ dataOf evs = f ++ tail →
       (∃ s' r' evs', pollNext D s r evs = (.item (F.item f), s', r', evs')
           ∧ r'.buffer ++ dataOf evs' = tail ∧ r'.isReadable = true ∧ r'.hasErrored = false
           ∧ r'.eof = false ∧ (∀ e ∈ evs', e.isFeed = true) ∧ evs'.length ≤ evs.length)
-      ∨ (∃ s' r' evs', pollNext D s r evs = (.pending, s', r', evs')
-          ∧ FrameInv r' f ∧ r'.isReadable = false ∧ r'.buffer ++ dataOf evs' = f ++ tail
+      ∨ (∃ s' r' evs' f', pollNext D s r evs = (.pending, s', r', evs')
+          ∧ F.Valid f' ∧ F.item f' = F.item f
+          ∧ FrameInv r' f' ∧ r'.isReadable = false ∧ r'.buffer ++ dataOf evs' = f' ++ tail
           ∧ (∀ e ∈ evs', e.isFeed = true) ∧ evs'.length < evs.length) := by
   intro evs
   induction evs with
   | nil =>
-    intro s r _ inv hdata
+    intro s r f hf _ inv hdata
     simp only [dataOf, List.append_nil] at hdata
     -- the buffer holds the whole frame
     have hb : r.buffer = f ++ tail := hdata
@@ -86,7 +110,7 @@ theorem pollNext_frame (F : Framing D) (f tail : Bytes) (hf : F.Valid f) :
     unfold pollNext ReadFrame.pre
     simp [inv.noErr, hread, inv.noEof, hb, hdec]
   | cons e evs ih =>
-    intro s r hfeed inv hdata
+    intro s r f hf hfeed inv hdata
     have hfeed' : ∀ e ∈ evs, e.isFeed = true := fun x hx => hfeed x (by simp [hx])
     -- first the part of the poll before the transport is touched
     by_cases hwhole : ∃ z, r.buffer = f ++ z
@@ -117,11 +141,19 @@ theorem pollNext_frame (F : Framing D) (f tail : Bytes) (hf : F.Valid f) :
         rcases prefix_dichotomy r.buffer f (dataOf (e :: evs)) tail hdata with h | h
         · exact absurd h hwhole
         · exact h
-      have hpre : ∃ s', ReadFrame.pre D s r = (none, s', { r with isReadable := false }) := by
+      obtain ⟨q, hq⟩ := hstrict.1
+      have hqne : q ≠ [] := by
+        intro h0; subst h0; exact hstrict.2 (by simpa using hq)
+      have hdq : dataOf (e :: evs) = q ++ tail := by
+        rw [← hq, List.append_assoc] at hdata
+        exact List.append_cancel_left hdata
+      -- what the reader holds after the transport-free part, and the frame it then waits for
+      have hpre : ∃ s' p', ReadFrame.pre D s r = (none, s', { r with isReadable := false, buffer := p' })
+          ∧ F.Valid (p' ++ q) ∧ F.item (p' ++ q) = F.item f := by
         unfold ReadFrame.pre
         cases hr : r.isReadable with
         | false =>
-          refine ⟨s, ?_⟩
+          refine ⟨s, r.buffer, ?_, by rw [hq]; exact hf, by rw [hq]⟩
           have h1 := inv.noErr
           cases r with
           | mk e i h b =>
@@ -129,53 +161,62 @@ theorem pollNext_frame (F : Framing D) (f tail : Bytes) (hf : F.Valid f) :
             subst hr; subst h1
             simp
         | true =>
-          obtain ⟨s', hdec⟩ := F.waits s f r.buffer hf hstrict.1 hstrict.2
-          exact ⟨s', by simp [inv.noErr, inv.noEof, hdec]⟩
-      obtain ⟨s1, hpre⟩ := hpre
+          obtain ⟨s', p', hdec, hv', hi'⟩ := F.waits s r.buffer q (by rw [hq]; exact hf) hqne
+          exact ⟨s', p', by simp [inv.noErr, inv.noEof, hdec], hv', by rw [hi', hq]⟩
+      obtain ⟨s1, p1, hpre, hv1, hi1⟩ := hpre
+      have hp1 : p1 <+: p1 ++ q ∧ p1 ≠ p1 ++ q := by
+        refine ⟨⟨q, rfl⟩, ?_⟩
+        intro e
+        have := congrArg List.length e
+        simp at this
+        exact hqne this
       cases e with
       | eof => have := hfeed .eof (by simp); simp [ReadEv.isFeed] at this
       | err k => have := hfeed (.err k) (by simp); simp [ReadEv.isFeed] at this
       | pending =>
-        refine Or.inr ⟨s1, { r with isReadable := false }, evs, ?_, ⟨inv.noErr, inv.noEof, fun _ => hstrict⟩,
-          rfl, by simpa [dataOf] using hdata, hfeed', by simp⟩
-        unfold pollNext
-        simp [hpre]
+        refine Or.inr ⟨s1, { r with isReadable := false, buffer := p1 }, evs, p1 ++ q, ?_, hv1, hi1,
+          ⟨inv.noErr, inv.noEof, fun _ => hp1⟩, rfl, ?_, hfeed', by simp⟩
+        · unfold pollNext
+          simp [hpre]
+        · simp only [dataOf] at hdq
+          simp only [List.append_assoc, hdq]
       | data c =>
         have hc : c ≠ [] := by
           have := hfeed (.data c) (by simp)
           simpa [ReadEv.isFeed] using this
         have hstep : pollNext D s r (.data c :: evs)
-            = pollNext D s1 { r with isReadable := true, buffer := r.buffer ++ c, eof := false } evs := by
+            = pollNext D s1 { r with isReadable := true, buffer := p1 ++ c, eof := false } evs := by
           conv => lhs; unfold pollNext
           simp [hpre, hc]
         rw [hstep]
-        have inv' : FrameInv { r with isReadable := true, buffer := r.buffer ++ c, eof := false } f :=
+        have inv' : FrameInv { r with isReadable := true, buffer := p1 ++ c, eof := false } (p1 ++ q) :=
           ⟨inv.noErr, rfl, by simp⟩
-        have hdata' : ({ r with isReadable := true, buffer := r.buffer ++ c, eof := false } : ReadFrame).buffer
-            ++ dataOf evs = f ++ tail := by
-          simpa [dataOf, List.append_assoc] using hdata
-        rcases ih s1 _ hfeed' inv' hdata' with ⟨s', r', evs', h1, h2, h3, h4, h5, h6, h7⟩ | ⟨s', r', evs', h1, h2, h3, h4, h5, h6⟩
-        · exact Or.inl ⟨s', r', evs', h1, h2, h3, h4, h5, h6, by simp; omega⟩
-        · exact Or.inr ⟨s', r', evs', h1, h2, h3, h4, h5, by simp; omega⟩
+        have hdata' : ({ r with isReadable := true, buffer := p1 ++ c, eof := false } : ReadFrame).buffer
+            ++ dataOf evs = (p1 ++ q) ++ tail := by
+          simp only [dataOf] at hdq
+          simp only [List.append_assoc, hdq]
+        rcases ih s1 _ (p1 ++ q) hv1 hfeed' inv' hdata' with ⟨s', r', evs', h1, h2, h3, h4, h5, h6, h7⟩ | ⟨s', r', evs', f', h1, hv', hi', h2, h3, h4, h5, h6⟩
+        · exact Or.inl ⟨s', r', evs', by rw [h1, hi1], h2, h3, h4, h5, h6, by simp; omega⟩
+        · exact Or.inr ⟨s', r', evs', f', h1, hv', by rw [hi', hi1], h2, h3, h4, h5, by simp; omega⟩
 
 /-- `next_delivers` for any sufficient number of polls -/
-theorem next_delivers_fuel (F : Framing D) (f tail : Bytes) (hf : F.Valid f) :
-    ∀ (n : Nat) (evs : List ReadEv) (s : σ) (r : ReadFrame), evs.length < n →
+theorem next_delivers_fuel (F : Framing D) (tail : Bytes) :
+    ∀ (n : Nat) (evs : List ReadEv) (s : σ) (r : ReadFrame) (f : Bytes), F.Valid f → evs.length < n →
       (∀ e ∈ evs, e.isFeed = true) → FrameInv r f → r.buffer ++ dataOf evs = f ++ tail →
       ∃ s' r' evs', awaitNextFuel D n s r evs = (.item (F.item f), s', r', evs')
         ∧ r'.buffer ++ dataOf evs' = tail ∧ r'.isReadable = true ∧ r'.hasErrored = false
         ∧ r'.eof = false ∧ (∀ e ∈ evs', e.isFeed = true) ∧ evs'.length ≤ evs.length := by
   intro n
   induction n with
-  | zero => intro evs s r hlen; omega
+  | zero => intro evs s r f _ hlen; omega
   | succ n ih =>
-    intro evs s r hlen hfeed inv hdata
-    rcases pollNext_frame F f tail hf evs s r hfeed inv hdata with ⟨s', r', evs', h1, h2⟩ | ⟨s', r', evs', h1, hinv, _, hd, hfeed', hlt⟩
+    intro evs s r f hf hlen hfeed inv hdata
+    rcases pollNext_frame F tail evs s r f hf hfeed inv hdata with ⟨s', r', evs', h1, h2⟩ | ⟨s', r', evs', f', h1, hv', hi', hinv, _, hd, hfeed', hlt⟩
     · exact ⟨s', r', evs', by unfold awaitNextFuel; simp [h1], h2⟩
-    · obtain ⟨s'', r'', evs'', g1, g2, g3, g4, g5, g6, g7⟩ := ih evs' s' r' (by omega) hfeed' hinv hd
+    · obtain ⟨s'', r'', evs'', g1, g2, g3, g4, g5, g6, g7⟩ := ih evs' s' r' f' hv' (by omega) hfeed' hinv hd
       refine ⟨s'', r'', evs'', ?_, g2, g3, g4, g5, g6, by omega⟩
       unfold awaitNextFuel
-      simp [h1, g1]
+      simp [h1, g1, hi']
 
 /-- **next_delivers**: `framed.next().await` on a healthy reader whose remaining input starts
     with the valid frame `f` – cut into reads in any way, with any number of `Pending`s –
@@ -187,7 +228,7 @@ theorem next_delivers (F : Framing D) (f tail : Bytes) (hf : F.Valid f)
     ∃ s' r' evs', awaitNext D s r evs = (.item (F.item f), s', r', evs')
       ∧ r'.buffer ++ dataOf evs' = tail ∧ r'.isReadable = true ∧ r'.hasErrored = false
       ∧ r'.eof = false ∧ (∀ e ∈ evs', e.isFeed = true) ∧ evs'.length ≤ evs.length :=
-  next_delivers_fuel F f tail hf (evs.length + 1) evs s r (by omega) hfeed inv hdata
+  next_delivers_fuel F tail (evs.length + 1) evs s r f hf (by omega) hfeed inv hdata
 
 /-- pull `n` items from the stream: what `n` successive `next().await`s return -/
 def pullN (D : Decoder σ ι) : Nat → σ → ReadFrame → List ReadEv → List (Polled ι) × σ × ReadFrame × List ReadEv
